@@ -132,6 +132,10 @@ def _case(draw, tier):
         case["outer_term"] = draw(st.sampled_from([["attr", ["var", 0], "ref"], ["var", 0], ["attr", ["attr", ["var", 0], "ref"], "ref"]])) \
             if position == "operand" else ["attr", ["var", 0], "ref"]
         case["extra"] = _small_cond(draw, ctx, [0]) if chance(draw, 1, 2) else None
+        # the comparison with the sub-query combined with the extra condition by or_ (operand position only): the operand is
+        # still restricted to the sub-query's solutions, the other disjunct speaks for itself
+        case["extra_conn"] = "or" if (position == "operand" and case["extra"] is not None and chance(draw, 1, 2)) else "and"
+        case["extra_first"] = draw(st.booleans())
         case["sub_side"] = draw(st.sampled_from(["right", "left"]))
         case["sel"] = [["var", 0]]
         case["desc"] = "entity"
@@ -245,10 +249,15 @@ def check(case) -> Outcome:
                 if pos == "argument" and not isinstance(l, CLASSES["Ent"]):
                     continue
                 lv = A.eval_term(case["outer_term"], {0: l})
-                if any(lv == w for w in sub_rows) and (extra is None or A.eval_cond(extra, {0: l})):
+                m_ = any(lv == w for w in sub_rows)
+                if (m_ or A.eval_cond(extra, {0: l})) if (extra is not None and case.get("extra_conn") == "or") else \
+                        (m_ and (extra is None or A.eval_cond(extra, {0: l}))):
                     expected.append((l,))
             nontrivial = 0 < len(sub_rows) < len(doms[1]) and 0 < len(expected) < len(doms[0])
             classes += ["sub_" + case["sub_quant"], "sub_on_" + case["sub_side"]]
+            if extra is not None and case.get("extra_conn") == "or":
+                classes.append("operand_comparison_under_or_" + ("second" if case.get("extra_first") else "first"))
+                feats.append("operand_comparison_under_or")
             if case["sub_quant"] == "the" and len(sub_rows) != 1:
                 return Outcome(True, classes=classes + ["skipped_the_not_unique"])
 
@@ -269,12 +278,19 @@ def check(case) -> Outcome:
                             lt = build_term(case["outer_term"], [l])
                             cmp_ = (lt == sub) if case["sub_side"] == "right" else (sub == lt)
                             conds = [cmp_] + ([build_cond(extra, [l])] if extra is not None else [])
+                            if extra is not None and case.get("extra_conn") == "or":
+                                from entity_query_language import or_
+                                conds = [or_(*(reversed(conds) if case.get("extra_first") else conds))]
                             q = an(entity(l, *conds))
                     else:
                         l = let(CLASSES["Ent"], domain=c0)
                         lt = build_term(case["outer_term"], [l])
                         cmp_ = (lt == x) if case["sub_side"] == "right" else (x == lt)
                         conds = [cmp_, build_cond(case["sub_cond"], [None, x])] + ([build_cond(extra, [l])] if extra is not None else [])
+                        if extra is not None and case.get("extra_conn") == "or":
+                            from entity_query_language import or_, and_
+                            parts_ = [and_(conds[0], conds[1]), conds[2]]
+                            conds = [or_(*(reversed(parts_) if case.get("extra_first") else parts_))]
                         q = an(entity(l, *conds))
                 abandon(q, case.get("abandon_first", 0))
                 return _eval3(q, lambda r: (r,))
